@@ -141,13 +141,13 @@ def dkg_lattice(rng, tier, phase):
 def dkg_histories(rng, tier):
     """random walks through the legal arrows fresh→proposed and joined→executing with junk in between, on all layers"""
     seqs = []
-    n = 6 if tier == "quick" else 60
+    n = 6 if tier == "quick" else 300
     for k in range(n):
         r = rng.fork(f"hist{k}")
         start = r.choice(["fresh", "joined", "proposed", "executing"])
         layer = r.choice(["proc", "daemon", "grpc"])
         seq = [f"phase {start}"]
-        for _ in range(r.range(10, 40)):
+        for _ in range(r.range(10, 40) if tier == "quick" else r.range(20, 90)):
             c = r.below(100)
             if c < 12:
                 seq.append(f"packet {layer} some some known leader tpl prop.valid known")
@@ -372,6 +372,8 @@ def explore_tier(ctx, res, tier):
         corpus.append((os.path.basename(fpath), c))
     for ph in PHASES:
         seqs.append(("dkg-lattice:" + ph, dkg_lattice(rng.fork("dkg" + ph), tier, ph)))
+        if tier == "thorough":   # a second pass: other junk bytes, another order (histories differ)
+            seqs.append(("dkg-lattice2:" + ph, dkg_lattice(rng.fork("dkg2" + ph), tier, ph)))
     for k, s in enumerate(dkg_histories(rng.fork("hist"), tier)):
         seqs.append((f"dkg-history:{k}", s))
     for ph in BPHASES:
